@@ -122,11 +122,16 @@ _PURE_METHODS = {
     bytes: {"startswith", "endswith", "join", "index", "find", "count",
             "decode", "hex"},
     tuple: {"index", "count"},
-    list: {"index", "count", "copy"},
-    dict: {"get", "items", "keys", "values", "copy"},
+    list: {"index", "count", "copy", "append", "extend", "insert", "pop",
+           "sort", "reverse", "remove", "clear"},
+    dict: {"get", "items", "keys", "values", "copy", "setdefault", "update",
+           "pop", "clear"},
+    bytearray: {"extend", "append", "index", "find", "count", "hex",
+                "startswith", "endswith"},
     int: {"bit_length", "to_bytes"},
     frozenset: {"union", "intersection", "difference", "issubset"},
-    set: {"union", "intersection", "difference", "issubset", "copy"},
+    set: {"union", "intersection", "difference", "issubset", "copy", "add",
+          "discard", "remove", "update", "clear"},
 }
 
 import math as _math
@@ -136,6 +141,19 @@ _MATH = {"math." + n: getattr(_math, n) for n in (
 # pure functions of the standard library on strings
 _MATH.update({"re." + n: getattr(_re, n) for n in (
     "findall", "split", "sub")})
+
+# operator.sub & co. passed around as values: applied through the same
+# binop / compare as the infix spelling
+_OPFUNC = {"add": ast.Add, "sub": ast.Sub, "mul": ast.Mult,
+           "truediv": ast.Div, "floordiv": ast.FloorDiv, "mod": ast.Mod,
+           "lshift": ast.LShift, "rshift": ast.RShift, "and_": ast.BitAnd,
+           "or_": ast.BitOr, "xor": ast.BitXor, "pow": ast.Pow,
+           "lt": ast.Lt, "le": ast.LtE, "gt": ast.Gt, "ge": ast.GtE,
+           "eq": ast.Eq, "ne": ast.NotEq, "is_": ast.Is,
+           "is_not": ast.IsNot}
+
+import itertools as _it
+_MATH["itertools.chain"] = lambda *a: list(_it.chain(*a))
 
 OPCODE_CLASS = "ebpfcat.ebpf.Opcode"
 
@@ -242,6 +260,8 @@ class Evaluator:
                     return ("pyfunc", operator.index)
                 if what in _MATH:
                     return ("pyfunc", _MATH[what])
+                if what.startswith("operator.") and what[9:] in _OPFUNC:
+                    return ("opfunc", _OPFUNC[what[9:]])
                 return ("ext", what)
             if kind == "node":
                 if isinstance(what, FUNC):
@@ -261,6 +281,8 @@ class Evaluator:
             return ("type", _TYPES[name])
         if name == "isinstance":
             return ("isinstance",)
+        if name in ("setattr", "getattr", "hasattr"):
+            return ("attrfn", name)
         if name in ("True", "False", "None"):
             return {"True": True, "False": False, "None": None}[name]
         if name == "NotImplemented":
@@ -283,6 +305,9 @@ class Evaluator:
         if isinstance(base, tuple) and base[:1] == ("ext",) and \
                 f"{base[1]}.{attr}" in _MATH:
             return ("pyfunc", _MATH[f"{base[1]}.{attr}"])
+        if isinstance(base, tuple) and base[:1] in (("ext",), ("module",)) \
+                and base[1] == "operator" and attr in _OPFUNC:
+            return ("opfunc", _OPFUNC[attr])
         if isinstance(base, ClassRef):
             return self.class_attr(base.ci, attr)
         if isinstance(base, EnumVal):
@@ -349,6 +374,11 @@ class Evaluator:
         for t, names in _PURE_METHODS.items():
             if type(base) is t and attr in names:
                 return ("pyfunc", getattr(base, attr))
+        # immutable builtins: every public method is pure
+        if type(base) in (str, bytes, tuple, int, float, frozenset) and \
+                not attr.startswith("_") and hasattr(base, attr):
+            v = getattr(base, attr)
+            return ("pyfunc", v) if callable(v) else v
         raise Unknown(f"attribute {attr} of {base!r}")
 
     def _e_BinOp(self, node, env):
@@ -679,7 +709,12 @@ class Evaluator:
         kwargs = {}
         for k in node.keywords:
             if k.arg is None:
-                raise Unknown("**kwargs")
+                d = self.eval(k.value, env)
+                if not isinstance(d, dict) or not all(
+                        isinstance(x, str) for x in d):
+                    raise Unknown("**kwargs")
+                kwargs.update(d)
+                continue
             kwargs[k.arg] = self.eval(k.value, env)
         return self.call(f, args, kwargs)
 
@@ -704,6 +739,10 @@ class Evaluator:
             if f[0] == "hook":
                 # a rule's recording stub: receives abstract values as is
                 return f[1](*args, **kwargs)
+            if f[0] == "opfunc" and len(args) == 2 and not kwargs:
+                if issubclass(f[1], ast.cmpop):
+                    return self.compare(f[1], args[0], args[1])
+                return self.binop(f[1], args[0], args[1])
             if f[0] == "pyfunc":
                 if f[1] is abs and len(args) == 1 and isinstance(args[0],
                                                                  Obj):
@@ -718,11 +757,17 @@ class Evaluator:
                         raise Raised("TypeError: object cannot be "
                                      "interpreted as an integer")
                     return self.call(m, [])
-                if any(isinstance(a, (Obj, Opaque, ClassRef))
-                       for a in list(args) + list(kwargs.values())):
+                container = isinstance(getattr(f[1], "__self__", None),
+                                       (list, dict, set))
+                if not container and any(
+                        isinstance(a, (Obj, Opaque, ClassRef))
+                        for a in list(args) + list(kwargs.values())):
                     raise Unknown("pure builtin on abstract value")
                 conv = [a.value if isinstance(a, EnumVal) and False else a
                         for a in args]
+                kwargs = {k: (self._as_callable(v) if isinstance(v, tuple)
+                              and v and v[0] in ("function", "method")
+                              else v) for k, v in kwargs.items()}
                 try:
                     return f[1](*conv, **kwargs)
                 except Unknown:
@@ -736,6 +781,27 @@ class Evaluator:
                     raise Raised(f"{type(e).__name__}: {e}")
             if f[0] == "isinstance":
                 return self._isinstance(args[0], args[1])
+            if f[0] == "attrfn":
+                if not args or not isinstance(args[0], Obj) or len(
+                        args) < 2 or not isinstance(args[1], str):
+                    raise Unknown(f"{f[1]} on a non-object")
+                if f[1] == "setattr" and len(args) == 3:
+                    args[0].fields[args[1]] = args[2]
+                    return None
+                if f[1] == "getattr":
+                    try:
+                        return self.getattr(args[0], args[1])
+                    except (Unknown, Raised):
+                        if len(args) == 3:
+                            return args[2]
+                        raise
+                if f[1] == "hasattr" and len(args) == 2:
+                    try:
+                        self.getattr(args[0], args[1])
+                        return True
+                    except Raised:
+                        return False
+                raise Unknown(f"{f[1]} arity")
             if f[0] == "superfn":
                 slf = getattr(self, "_self", None)
                 if slf is None:
@@ -755,6 +821,11 @@ class Evaluator:
                 return self.call_function(f[2], [f[1]] + list(args), kwargs,
                                           cls=f[3], closure=f[4] if len(f) > 4 else None)
         raise Unknown(f"call of {f!r}")
+
+    def _as_callable(self, f):
+        """an evaluator-level function as a Python callable (the `key=` of
+        a sort)"""
+        return lambda *a, **k: self.call(f, list(a), k)
 
     def _isinstance(self, v, t):
         if isinstance(t, tuple) and len(t) == 2 and t[0] == "pyfunc" \
@@ -816,12 +887,15 @@ class Evaluator:
                     env[p.arg] = kwargs.pop(p.arg)
                 elif d is not None:
                     env[p.arg] = sub.eval(d, {})
+            if a.kwarg:
+                env[a.kwarg.arg] = dict(kwargs)
+                kwargs = {}
             if kwargs:
                 raise Raised("TypeError: unexpected keyword")
             if isinstance(fn, ast.Lambda):
                 return sub.eval(fn.body, env)
             r = sub.run_block(fn.body, env)
-            return r[1] if r is not None else None
+            return r[1] if r is not None and r[0] == "return" else None
         finally:
             self._depth -= 1
 
@@ -864,6 +938,44 @@ class Evaluator:
             if not self.truth(self.eval(s.test, env)):
                 raise Raised("AssertionError")
             return None
+        if isinstance(s, ast.Break):
+            return ("break",)
+        if isinstance(s, ast.Continue):
+            return ("continue",)
+        if isinstance(s, ast.For):
+            it = self.eval(s.iter, env)
+            if isinstance(it, (Obj, Opaque, ClassRef)) or (
+                    isinstance(it, tuple) and it and isinstance(it[0], str)
+                    and it[0] in ("function", "pyfunc", "method", "ext")):
+                raise Unknown("iteration over an abstract value")
+            try:
+                items = list(it)
+            except TypeError as e:
+                raise Raised(f"TypeError: {e}")
+            for x in items:
+                self.bind(s.target, x, env)
+                r = self.run_block(s.body, env)
+                if r is not None:
+                    if r[0] == "break":
+                        break
+                    if r[0] == "continue":
+                        continue
+                    return r
+            else:
+                return self.run_block(s.orelse, env)
+            return None
+        if isinstance(s, ast.While):
+            for _ in range(100000):
+                if not self.truth(self.eval(s.test, env)):
+                    return self.run_block(s.orelse, env)
+                r = self.run_block(s.body, env)
+                if r is not None:
+                    if r[0] == "break":
+                        return None
+                    if r[0] == "continue":
+                        continue
+                    return r
+            raise Unknown("loop does not terminate in 100000 rounds")
         if isinstance(s, ast.Raise):
             raise Raised(unparse(s.exc) if s.exc else "re-raise")
         if isinstance(s, FUNC):
